@@ -10,7 +10,7 @@ import (
 )
 
 func init() {
-	register("C09", ruleC09Total, ruleC09ReadOnly, ruleC10LockPairing, ruleC09ThunkArms)
+	register("C09", ruleC09Total, ruleC09ReadOnly, ruleC09ParsedImmutable, ruleC09CacheKey, ruleC10LockPairing, ruleC09ThunkArms)
 }
 
 // readerReach: the module functions reachable from ExecReader on a JSON-like document, i.e. not
@@ -81,8 +81,21 @@ func libLenAtLeast1(v ssa.Value) bool {
 // regexpMatchElem: v is an element of the result of FindAllString on one of the module's
 // package-level patterns (every alternative of which is non-nullable: checked separately).
 func regexpMatchElem(v ssa.Value) bool {
-	t := NewTB().Of(v).String()
-	return strings.Contains(t, "regexp.Regexp).FindAllString(")
+	// exactly an element of the result: load(IndexAddr(FindAllString(...), i)) — not a value derived from it
+	// (trimming a match can make it empty)
+	ld, ok := v.(*ssa.UnOp)
+	if !ok || ld.Op != token.MUL {
+		return false
+	}
+	ia, ok := ld.X.(*ssa.IndexAddr)
+	if !ok {
+		return false
+	}
+	call, ok := ia.X.(*ssa.Call)
+	if !ok || call.Common().StaticCallee() == nil {
+		return false
+	}
+	return call.Common().StaticCallee().String() == "(*regexp.Regexp).FindAllString"
 }
 
 func ruleC09Total(c *Ctx) {
@@ -341,4 +354,105 @@ func ruleC09ThunkArms(c *Ctx) {
 			return st
 		}())
 	}
+}
+
+
+// ruleC09ParsedImmutable: parsed selectors (shared through the process-wide cache) are never written after construction.
+func ruleC09ParsedImmutable(c *Ctx) {
+	c.Doc("c09.parsed-immutable", "the parsed selector objects (IndexSelector, PipeSelector — shared by every later evaluation through the process-wide cache) are written only by the functions that allocate them: no write site on the evaluation path may target their fields or storage reached through them (e.g. the slice GetRange returns)")
+	reach := c.readerReach()
+	if reach == nil {
+		c.Unknown("c09.parsed-immutable", "ExecReader", "-", "anchor lost")
+		return
+	}
+	o := c.own()
+	allocators := map[*ssa.Function]bool{}
+	for f := range reach {
+		allInstrs(f, func(_ *ssa.BasicBlock, in ssa.Instruction) {
+			if a, ok := in.(*ssa.Alloc); ok && (isNamedType(a.Type(), modPath, "IndexSelector") || isNamedType(a.Type(), modPath, "PipeSelector")) {
+				allocators[f] = true
+			}
+		})
+	}
+	n := 0
+	for _, w := range o.Writes {
+		if !reach[w.Fn] {
+			continue
+		}
+		hit := ""
+		for _, id := range w.Objs {
+			ob := o.objs[id]
+			if ob.kind == "field" && (strings.HasPrefix(ob.label, "IndexSelector.") || strings.HasPrefix(ob.label, "PipeSelector.")) {
+				hit = ob.label
+			}
+		}
+		if hit == "" {
+			continue
+		}
+		n++
+		key := c.writeKey(w)
+		c.Check(allocators[w.Fn], "c09.parsed-immutable", key, c.P.Pos(w.Instr.Pos()), "written by the function that allocates the selector", "a cached, shared parsed selector ("+hit+") is written during evaluation: the change leaks into every later use of the same selector text")
+	}
+	if n == 0 {
+		c.PassTrivial("c09.parsed-immutable", "selectors", "-", "no write to selector fields outside composite literals")
+	}
+}
+
+// ruleC09CacheKey: the cache maps a selector text to the parse of that very text.
+func ruleC09CacheKey(c *Ctx) {
+	c.Doc("c09.cache-key", "the selector cache is looked up and filled under the same key, and the value stored under a key is the parse of the very text the key is computed from (the parse input contains the key's term): two selector texts that differ can never be served each other's parse")
+	var f *ssa.Function
+	var upd *ssa.MapUpdate
+	for _, g := range c.P.pkgFuncs(modPath) {
+		allInstrs(g, func(_ *ssa.BasicBlock, in ssa.Instruction) {
+			if mu, ok := in.(*ssa.MapUpdate); ok {
+				if ld, ok := mu.Map.(*ssa.UnOp); ok {
+					if gl, ok := ld.X.(*ssa.Global); ok && gl.Name() == "cache" {
+						f, upd = g, mu
+					}
+				}
+			}
+		})
+	}
+	if f == nil {
+		c.Unknown("c09.cache-key", "selector-cache", "-", "anchor lost")
+		return
+	}
+	key := c.P.funcKey(f)
+	c.Fn(key)
+	tbd := NewTB()
+	kt := tbd.Of(upd.Key)
+	var why []string
+	// lookup key
+	lookups := 0
+	allInstrs(f, func(_ *ssa.BasicBlock, in ssa.Instruction) {
+		if lk, ok := in.(*ssa.Lookup); ok {
+			if ld, ok := lk.X.(*ssa.UnOp); ok {
+				if gl, ok := ld.X.(*ssa.Global); ok && gl.Name() == "cache" {
+					lookups++
+					if tbd.Of(lk.Index).String() != kt.String() {
+						why = append(why, "the cache is looked up with "+tbd.Of(lk.Index).String()+" but filled under "+kt.String())
+					}
+				}
+			}
+		}
+	})
+	if lookups == 0 {
+		why = append(why, "the cache is never looked up")
+	}
+	// the parse input derives from the key's term
+	parsed := false
+	allInstrs(f, func(_ *ssa.BasicBlock, in ssa.Instruction) {
+		if call, ok := in.(*ssa.Call); ok && call.Common().StaticCallee() != nil && call.Common().StaticCallee().Name() == "ParseSelector" {
+			parsed = true
+			at := tbd.Of(call.Common().Args[0])
+			if !strings.Contains(at.String(), kt.String()) {
+				why = append(why, "the value stored under the key "+kt.String()+" is the parse of "+at.String()+", which is not derived from that key: different selector texts can share an entry")
+			}
+		}
+	})
+	if !parsed {
+		why = append(why, "the cached value is not produced by ParseSelector")
+	}
+	c.Check(len(why) == 0, "c09.cache-key", key, c.P.Pos(upd.Pos()), "lookup key == store key == the text that is parsed", strings.Join(uniq(why), "; "))
 }
